@@ -220,6 +220,11 @@ def stripECS (opts : List Opt) : List Opt := opts.filter (fun o => !o.isEcs)
 /-- `edns.stripKeepalive` (option code 11). -/
 def stripKeepalive (opts : List Opt) : List Opt := opts.filter (fun o => o.code != 11)
 
+/-- `edns.keepExtendedErrors`: an OPT that came with the downstream response is
+the upstream hop's own; only extended errors (code 15) travel on (and ECS, which
+`stripECS` removes a few lines later). -/
+def keepExtendedErrors (opts : List Opt) : List Opt := opts.filter (fun o => o.isEcs || o.code == 15)
+
 /-- `edns.ResponseWriter.WriteMsg`, option list of the client-facing OPT:
 `resp` = options of the OPT the downstream response carried (none: it had no
 OPT and the writer's own is used), `own` = options left on the request OPT by
@@ -228,9 +233,14 @@ def replyOptions (noedns : Bool) (resp : Option (List Opt)) (own server : List O
     (keepalive : Bool) : Option (List Opt) :=
   if noedns then none else
   let merged := match resp with
-    | some r => r ++ (own ++ server)
+    | some r => keepExtendedErrors r ++ (own ++ server)
     | none => own ++ server
   some (stripKeepalive (stripECS merged) ++ (if keepalive then [.other 11 "srv"] else []))
+
+/-- the BADVERS branch of `edns.ServeDNS`: the rejection is written through the
+base writer with the request's own OPT, after `SetEdns0` and a `stripECS`. -/
+def badversReplyOptions (p : Option Policy) (client : Option Addr) (opts : List Opt) : List Opt :=
+  stripECS (setEdns0 p client opts)
 
 /-- `edns.hasClientECS` (the `MarkClientECS` trigger), `cache.hasEDNSClientSubnet`. -/
 def hasEcs (opts : Option (List Opt)) : Bool :=
